@@ -181,6 +181,7 @@ void h_writer_close_fault(void)
 	uint64_t pend0 = w->pending_offset; size_t fpos0 = vg_fpos;
 	size_t est0 = vg_data_bb.est, iest0 = vg_index_bb.est; _Bool empty0 = vg_data_bb.empty;
 	__CPROVER_assume(w->opt.compression_type == MTBL_COMPRESSION_NONE);
+	__CPROVER_assume(vg_data_bb.empty);      /* no pending data block: the writes of a data block under faults are the add harness's (wr_add_fault); here: index block + trailer */
 	vg_errno = nondet_int();
 	mtbl_writer_destroy(&w);
 	VG_REACH("mtbl_writer_destroy returns (fault mode)");
